@@ -492,9 +492,12 @@ var legacyStatuses = []packet.ResponseStatus{
 	packet.AcceptedResourcePackResponseStatus, packet.SuccessfulResourcePackResponseStatus,
 	packet.DeclinedResourcePackResponseStatus, packet.FailedDownloadResourcePackResponseStatus,
 }
+// one status of every class the >=1.20.3 handler distinguishes: ACCEPTED, SUCCESSFUL, DISCARDED have their own
+// branch; of the "no action" class one final status (DECLINED) and one intermediate status (DOWNLOADED)
 var modernStatusesQuick = []packet.ResponseStatus{
 	packet.AcceptedResourcePackResponseStatus, packet.SuccessfulResourcePackResponseStatus,
 	packet.DeclinedResourcePackResponseStatus, packet.DiscardedResourcePackResponseStatus,
+	packet.DownloadedResourcePackResponseStatus,
 }
 var modernStatusesAll = []packet.ResponseStatus{
 	packet.AcceptedResourcePackResponseStatus, packet.DownloadedResourcePackResponseStatus,
